@@ -343,6 +343,17 @@ def quick_work(shard, n4, n3, n2, seed):
                 e2 = dict(eff)
                 e2[k] = up
                 do("4", cvss.CVSS4, lo, spell(e2), ("M" + k) if (k in style and style[k]) else k, "CVSS:4.0/")
+        # a base metric that is overridden by its Modified metric is still 'a single metric': one step up must not lower the score
+        for k in K4[:11]:
+            if style[k]:
+                d = [x for x in SEV["4"][k] if x in spec.V4[k]]
+                if base[k] in d and d.index(base[k]) + 1 < len(d):
+                    old_b = base[k]
+                    base[k] = d[d.index(old_b) + 1]
+                    hi = spell(eff)
+                    base[k] = old_b
+                    part.classes["overridden-base-metric step"] += 1
+                    do("4", cvss.CVSS4, lo, hi, k, "CVSS:4.0/")
     # v3
     names = K3B + ["CR", "IR", "AR", "E", "RL", "RC"]
     doms = DOM3B + ["LMH"] * 3 + [spec.SEV3["E"], spec.SEV3["RL"], spec.SEV3["RC"]]
@@ -370,6 +381,16 @@ def quick_work(shard, n4, n3, n2, seed):
                 e2[k] = d[i + 1]
                 kk = ("M" + k) if (k in mod and mod[k]) else k
                 do("3", cvss.CVSS3, lo, spell3(e2), kk, pre)
+        for k in K3B:
+            if mod[k]:
+                d = list(spec.SEV3[k])
+                if d.index(base[k]) + 1 < len(d):
+                    old_b = base[k]
+                    base[k] = d[d.index(old_b) + 1]
+                    hi = spell3(eff)
+                    base[k] = old_b
+                    part.classes["overridden-base-metric step"] += 1
+                    do("3", cvss.CVSS3, lo, hi, k, pre)
     # v2
     names2 = K2B + ["E", "RL", "RC"]
     doms2 = DOM2B + [spec.SEV2["E"], spec.SEV2["RL"], spec.SEV2["RC"]]
@@ -412,4 +433,4 @@ def run(tier, t0):
         part, tier, t0, rule,
         ["oracle is the order relation only; severity orders typed from the specifications",
          "thorough tables use the plain spelling of each effective assignment; other spellings rest on C05/C06 and the sampled mixed-spelling pairs"],
-        exhaustive=(tier == "thorough"), required=("v4 pairs", "v3 pairs", "v2 pairs"))
+        exhaustive=(tier == "thorough"), required=("v4 pairs", "v3 pairs", "v2 pairs", "overridden-base-metric step"))
